@@ -199,5 +199,31 @@ pub mod ops {
     }
 }
 
+pub mod store {
+    use vstd::prelude::*;
+    pub struct SecretKey { pub o: u64 }
+    /// auth::Credentials (two public fields)
+    pub struct Credentials { pub access_key: String, pub secret_key: SecretKey }
+    /// ops::signature::CredentialsExt: what SignatureContext::check returns for a verified signature
+    pub struct CredentialsExt { pub access_key: String, pub secret_key: SecretKey, pub region: Option<String>, pub service: Option<String> }
+    pub struct S3Extensions { pub credentials: Option<Credentials>, pub region: Option<String>, pub service: Option<String> }
+    pub struct Request { pub s3ext: S3Extensions }
+
+    /// prepare(): what gets stored as the request's identity is exactly what the signature check returned
+    pub fn store_verified_identity(req: &mut Request, credentials: Option<CredentialsExt>)
+        ensures
+            //# C07:prepare.stored_identity_is_exactly_the_verified_signer
+            credentials matches Some(c) ==> (final(req).s3ext.credentials matches Some(k) && k.access_key == c.access_key && k.secret_key == c.secret_key),
+            //# C07:prepare.no_verified_signature_means_anonymous
+            credentials is None ==> final(req).s3ext.credentials is None,
+            //# C05,C06:prepare.region_and_service_of_the_verified_scope_are_stored
+            credentials matches Some(c) ==> (final(req).s3ext.region == c.region && final(req).s3ext.service == c.service),
+            //#-
+//@@ canary store_verified_identity
+    {
+//@@ extract store_identity file=crates/s3s/src/ops/mod.rs item="fn prepare" from="match credentials {" until="} if body_changed {"
+    }
+}
+
 } // verus!
 fn main() {}
